@@ -311,6 +311,52 @@ def _run(res, rng, tier, driver, work):
                         f"loading the file does not give the network held ({first_diff(want, got)})",
                 "replay": {"label": f"live #{i}", "fmt": fmt, "version": version, "update_between": i % 3 == 0,
                            "lines": hist[:cut] + ["<save>"] + tail, "want": want[:1500], "got": got[:1500]}})
+    # lines accepted before the file is loaded (the transport was started before start_persistence()): the
+    # load merges the file into what is already held; the next save writes all of it
+    for i in range((12 if tier == "quick" else 150) * common.effort(tier)):
+        version = rng.choice(["1.4", "1.5", "2.0", "2.1", "2.2"])
+        fmt = pu.FORMATS[i % 2]
+        path = os.path.join(work, f"early.{fmt}")
+        for p in (path, path + ".bak"):
+            if os.path.exists(p):
+                os.remove(p)
+        first = pu.make_gateway(version, persistence_file=path)
+        first_lines = [f"1;255;0;0;17;{version}\n", "1;0;0;0;6;t\n", "1;0;1;0;0;20\n"] + pu.history_lines(rng, version, 6)
+        for line in first_lines:
+            try:
+                pu.feed(first, line)
+            except Exception:  # noqa: BLE001
+                pass
+        early = [f"2;255;0;0;17;{version}\n", "2;3;0;0;6;late\n", "2;3;1;0;0;7.5\n"] + pu.history_lines(rng, version, 4)
+        try:
+            first.tasks.persistence.save_sensors()
+            gw = pu.make_gateway(version, persistence_file=path)
+            for line in early:
+                try:
+                    pu.feed(gw, line)
+                except Exception:  # noqa: BLE001
+                    pass
+            gw.tasks.persistence.safe_load_sensors()
+            gw.tasks.persistence.save_sensors()
+        except Exception as e:  # noqa: BLE001
+            res.oracle_failures.append({"key": {"kind": "save-raised", "fmt": fmt, "exc": type(e).__name__},
+                                        "what": f"load / save raised {type(e).__name__}: {e}",
+                                        "replay": {"label": f"early #{i}", "fmt": fmt}})
+            continue
+        want = pu.project_reset(gw.sensors)
+        exc, loaded = pu.fresh_load(path)
+        got = "load-raised:" + type(exc).__name__ if exc is not None else pu.project(loaded)
+        res.evaluations += 1
+        res.count(f"{fmt}:lines-before-load")
+        res.distinct.add(digest(["early", fmt, want]))
+        if got != want:
+            res.oracle_failures.append({
+                "key": {"kind": "early-lines-not-saved", "fmt": fmt, "field": first_diff(want, got)},
+                "what": f"{fmt}: lines handled before the file was loaded, then the load and a save: a fresh load does "
+                        f"not give the network held ({first_diff(want, got)})",
+                "replay": {"label": f"early #{i}", "fmt": fmt, "version": version, "early_lines": early,
+                           "first_lines": first_lines,
+                           "want": want[:1200], "got": got[:1200]}})
     res.rule = (f"corpus (empty network, bare node 0, ids 1/254/255, children without values, NUL/quotes/braces/"
                 f"line separators/astral-plane text, 5000-character name, 4300-digit heartbeat, pending desired values, "
                 f"withheld lines, reboot flag; 4 networks outside the invariant) + {n_gw} networks built by feeding "
@@ -378,10 +424,41 @@ def replay_live(r):
         pu.rmtree(work)
 
 
+def replay_early(r):
+    work = tempfile.mkdtemp(prefix="verif-c11-")
+    try:
+        path = os.path.join(work, f"early.{r['fmt']}")
+        first = pu.make_gateway(r["version"], persistence_file=path)
+        for line in r["first_lines"]:
+            try:
+                pu.feed(first, line)
+            except Exception:  # noqa: BLE001
+                pass
+        first.tasks.persistence.save_sensors()
+        gw = pu.make_gateway(r["version"], persistence_file=path)
+        for line in r["early_lines"]:
+            try:
+                pu.feed(gw, line)
+            except Exception:  # noqa: BLE001
+                pass
+        gw.tasks.persistence.safe_load_sensors()
+        gw.tasks.persistence.save_sensors()
+        want = pu.project_reset(gw.sensors)
+        exc, loaded = pu.fresh_load(path)
+        got = "load-raised:" + type(exc).__name__ if exc is not None else pu.project(loaded)
+        print("held  :", want[:1200])
+        print("loaded:", got[:1200])
+        return 0 if got == want else 1
+    finally:
+        pu.rmtree(work)
+
+
 def replay(payload):
     print(payload)
     r = payload.get("replay", {})
     label = r.get("label", "")
+    if label.startswith("early #") and "first_lines" in r:
+        return replay_early(r)
     if label.startswith("live #") and "lines" in r:
         return replay_live(r)
     seed = int(os.environ.get("VERIF_SEED", "0"))
